@@ -123,15 +123,25 @@ fn pipeline_job(pipe: Pipe, form: Form, len: usize) -> Job {
 
 // ------------------------------------------------------------- composites
 
+/// teardown callback of a child (single-threaded engine: `Send` is a formality)
+struct OnUnsub(Box<dyn FnMut()>);
+unsafe impl Send for OnUnsub {}
+
 /// controllable child subscription
 #[derive(Clone, Default)]
 struct Ctl {
   finished: Arc<AtomicBool>,
   unsubscribed: Arc<AtomicBool>,
+  /// runs when this child is unsubscribed (e.g. appends another child to the
+  /// composite that is being torn down)
+  on_unsub: Option<Arc<std::sync::Mutex<OnUnsub>>>,
 }
 impl Subscription for Ctl {
   fn unsubscribe(self) {
     self.unsubscribed.store(true, Ordering::SeqCst);
+    if let Some(f) = &self.on_unsub {
+      (f.lock().unwrap().0)();
+    }
   }
   fn is_closed(&self) -> bool {
     self.finished.load(Ordering::SeqCst) || self.unsubscribed.load(Ordering::SeqCst)
@@ -146,11 +156,14 @@ macro_rules! multi_job {
         let mut handles: Vec<$multi> = vec![<$multi>::default()];
         handles.push(handles[0].clone());
         let mut kids: Vec<Ctl> = vec![];
+        // children appended from inside another child's teardown
+        let late_kids: std::rc::Rc<std::cell::RefCell<Vec<Ctl>>> = Default::default();
         let mut unsub = false;
         let mut seen_true = false;
         let mut hist: Vec<String> = vec![];
         for _ in 0..len {
-          let mut menu: Vec<(&str, usize)> = vec![("append@h0", 0), ("append@h1", 1)];
+          let mut menu: Vec<(&str, usize)> =
+            vec![("append@h0", 0), ("append@h1", 1), ("append-child-that-appends-on-teardown", 0)];
           for k in 0..kids.len() {
             if !kids[k].is_closed() {
               menu.push(("child-finishes", k));
@@ -171,6 +184,21 @@ macro_rules! multi_job {
               kids.push(c.clone());
               let idx = arg.min(handles.len() - 1);
               handles[idx].append($boxsub::new(c));
+              grew_live = !unsub;
+            }
+            "append-child-that-appends-on-teardown" => {
+              let mut target = handles[0].clone();
+              let lk = late_kids.clone();
+              let c = Ctl {
+                on_unsub: Some(Arc::new(std::sync::Mutex::new(OnUnsub(Box::new(move || {
+                  let n = Ctl::default();
+                  lk.borrow_mut().push(n.clone());
+                  target.append($boxsub::new(n));
+                }))))),
+                ..Default::default()
+              };
+              kids.push(c.clone());
+              handles[0].append($boxsub::new(c));
               grew_live = !unsub;
             }
             "child-finishes" => kids[arg].finished.store(true, Ordering::SeqCst),
@@ -217,6 +245,17 @@ macro_rules! multi_job {
             }
           }
           if unsub {
+            for (k, kid) in late_kids.borrow().iter().enumerate() {
+              if !kid.unsubscribed.load(Ordering::SeqCst) {
+                obs.fail(
+                  format!("c17:child-appended-during-teardown-left-running:{}", $label),
+                  format!(
+                    "after [{}]: child {k} appended from inside another child's teardown is still live after unsubscribe() returned",
+                    hist.join(" ")
+                  ),
+                );
+              }
+            }
             for (k, kid) in kids.iter().enumerate() {
               if !kid.unsubscribed.load(Ordering::SeqCst) && !kid.finished.load(Ordering::SeqCst) {
                 obs.fail(
